@@ -123,11 +123,71 @@ pub fn check_c07_evo(c: &EvoSuffixCase, acc: &mut Acc, record: bool) -> Verdict 
     }
 }
 
+#[derive(Debug, Clone, Serialize, Deserialize)]
+pub struct IterThenCase {
+    pub elem: Ty,
+    pub xs: Vec<Val>,
+    /// 0: exact hint, 1: (0, None), 2: bounded inexact (lo <= n <= hi, lo < hi)
+    pub hint: u8,
+    pub next: TV,
+    pub suffix: Vec<u8>,
+}
+
+/// a sequence written through the public `serialize_iterator` helper, whatever its size hint says, is followed by
+/// another value: both come back and exactly the suffix is left
+pub fn check_c07_iter(c: &IterThenCase, acc: &mut Acc, record: bool) -> Verdict {
+    let n = c.xs.len();
+    let (lo, hi) = match c.hint % 3 {
+        0 => (n, Some(n)),
+        1 => (0, None),
+        _ => (n / 2, Some(n + 1 + n % 2)),
+    };
+    let mut bytes = match vcat::encode_iter_then(&c.elem, &c.xs, lo, hi, &(c.next.ty.clone(), c.next.val.clone())) {
+        Ok(b) => b,
+        Err(e) => return Verdict::Fail(format!("encoding failed: {e:?}")),
+    };
+    let enc_len = bytes.len();
+    bytes.extend_from_slice(&c.suffix);
+    if record {
+        let class = format!("serialize_iterator with size hint {} then another value", ["exact", "(0, None)", "bounded inexact"][c.hint as usize % 3]);
+        acc.case(&class, hash_json(c), !c.suffix.is_empty() && n > 0);
+        if acc.wants_sample(&class) {
+            acc.sample(&class, json!({"element": c.elem.render(), "items": n, "size_hint": format!("({lo}, {hi:?})"), "next": c.next.ty.render(), "encoding_len": enc_len, "suffix_hex": hex(&c.suffix)}));
+        }
+    }
+    let tys = vec![Ty::Vec(Arc::new(c.elem.clone())), c.next.ty.clone()];
+    let want = [Val::Seq(c.xs.clone()), vmodel::with_transient_defaults(&c.next.ty, &c.next.val)];
+    let (results, rest) = vcat::decode_many(&tys, &bytes);
+    for i in 0..2 {
+        match results.get(i) {
+            Some(Ok(v)) if canon(&tys[i], v) == canon(&tys[i], &want[i]) => {}
+            other => return Verdict::Fail(format!("value {i} after a serialize_iterator sequence with size hint ({lo}, {hi:?}) and {n} items read back as {:?} instead of {} (stream {})", other.map(|r| r.as_ref().map(|v| v.brief())), want[i].brief(), hex(&bytes))),
+        }
+    }
+    if rest != c.suffix {
+        return Verdict::Fail(format!("left unread {} instead of the suffix {}", hex(&rest), hex(&c.suffix)));
+    }
+    Verdict::Pass
+}
+
+fn iter_then_strategy() -> BoxedStrategy<IterThenCase> {
+    let cfg = ValCfg { max_len: 6, long: false, ..ValCfg::default() };
+    (any_ty(1), 0u8..3, tv_strategy(2, cfg), suffix_strategy())
+        .prop_filter_map("u8 sequences use the byte-array form when read as Vec<u8>", |(e, h, n, s)| if e == Ty::U8 { None } else { Some((e, h, n, s)) })
+        .prop_flat_map(move |(elem, hint, next, suffix)| (proptest::collection::vec(val_strategy(&elem, cfg), 0..7), Just(elem), Just(hint), Just(next), Just(suffix)))
+        .prop_map(|(xs, elem, hint, next, suffix)| IterThenCase { elem, xs, hint, next, suffix })
+        .boxed()
+}
+
 pub fn run_c07(cx: &Cx) -> PropResult {
     let per_shard = cx.n(20_000, 500_000);
     let acc = parallel(cx, &|shard, acc| {
         let strat = suffix_case_strategy(3);
         if drive(crate::run::tag_seed(derive_seed(cx.seed, cx.prop, shard as u64, 0), 0), &strat, per_shard, acc, &|c: &SuffixCase| to_json(&json!({"Plain": c})), &mut |c, a, r| check_c07(c, a, r)) {
+            return;
+        }
+        let strat = iter_then_strategy();
+        if drive(crate::run::tag_seed(derive_seed(cx.seed, cx.prop, shard as u64, 2), 2), &strat, per_shard / 4, acc, &|c: &IterThenCase| to_json(&json!({"Iter": c})), &mut |c, a, r| check_c07_iter(c, a, r)) {
             return;
         }
         // evolved records read by older / newer definitions (run-time histories, then the compiled batch)
@@ -146,7 +206,7 @@ pub fn run_c07(cx: &Cx) -> PropResult {
     let mut r = PropResult::new(
         acc,
         "exploration",
-        "cases = 1 value, or 2-5 values of different types written back to back into one SerializationContext, followed by a suffix (empty, one byte, bytes that look like a continuation, random up to 64 bytes). The values are decoded in order from one DeserializationContext, which is then drained with read_u8: every value must come back and the drained bytes must equal the suffix exactly. Non-trivial = non-empty suffix and an encoding of >= 2 bytes. Evolved records: the same with (history, writer version w, reader version r, value, placement) cases from run-time histories and from the compiled batch — data of version w followed by a suffix is read by version r; when the documented outcome is a value the reader must leave exactly the suffix (unknown chunks skipped in full); stored version 0 read by a definition that removed fields is outside the quantifier (counted).",
+        "cases = 1 value, or 2-5 values of different types written back to back into one SerializationContext, followed by a suffix (empty, one byte, bytes that look like a continuation, random up to 64 bytes). The values are decoded in order from one DeserializationContext, which is then drained with read_u8: every value must come back and the drained bytes must equal the suffix exactly. Non-trivial = non-empty suffix and an encoding of >= 2 bytes. Sequences written through the public serialize_iterator helper with exact, unbounded-inexact and bounded-inexact size hints, followed by another value and a suffix. Evolved records: the same with (history, writer version w, reader version r, value, placement) cases from run-time histories and from the compiled batch — data of version w followed by a suffix is read by version r; when the documented outcome is a value the reader must leave exactly the suffix (unknown chunks skipped in full); stored version 0 read by a definition that removed fields is outside the quantifier (counted).",
     );
     r.assumptions = vec!["DeserializationContext is a public BinaryInput: the unread remainder is observed without a hook".into()];
     r
@@ -156,6 +216,10 @@ pub fn replay_c07(case: &Value) -> Verdict {
     if let Some(e) = case.get("Evo") {
         let c: EvoSuffixCase = serde_json::from_value(e.clone()).expect("replay case");
         return check_c07_evo(&c, &mut Acc::new(), false);
+    }
+    if let Some(e) = case.get("Iter") {
+        let c: IterThenCase = serde_json::from_value(e.clone()).expect("replay case");
+        return check_c07_iter(&c, &mut Acc::new(), false);
     }
     let c: SuffixCase = serde_json::from_value(case.get("Plain").cloned().unwrap_or(case.clone())).expect("replay case");
     check_c07(&c, &mut Acc::new(), false)
